@@ -219,7 +219,7 @@ Proof.
   inversion ND as [|? ? Hn ND']; subst.
   cbn [map]. unfold run_from. cbn [fold_left].
   fold (run_from no_fixes c (fst (step no_fixes c s (ESetIns k))) (map ESetIns r)).
-  assert (E : s_workers (fst (step no_fixes c s (ESetIns k))) = wset k fresh_info (s_workers s)).
+  assert (E : s_workers (fst (step no_fixes c s (ESetIns k))) = wset k (fresh_info_of k) (s_workers s)).
   { unfold step. cbn. reflexivity. }
   rewrite IH; auto.
   - rewrite E. rewrite wset_len_none by (apply F; left; reflexivity). cbn [length]. lia.
@@ -797,6 +797,245 @@ Lemma normalize_round_nonvacuous_lemma :
   round_ok c0 2 2 = false /\
   tracked (run no_fixes c0 (up ++ ENormalize :: burst_keys [3; 4])) = 4%N /\
   bound_ok c0 (tracked (run no_fixes c0 (up ++ ENormalize :: burst_keys [3; 4]))) = false.
+Proof. vm_compute. repeat split. Qed.
+
+
+(* ------------------------------------------------------------ one fork, one entry *)
+
+Definition forks (l : list (nat * winfo)) : list nat := map (fun p : nat * winfo => w_fork (snd p)) l.
+
+Lemma step_len_le : forall fx c s e,
+  length (s_workers (fst (step fx c s e))) <=
+  length (s_workers s) + match e with ESetIns _ => 1 | _ => 0 end.
+Proof.
+  intros fx c s e. unfold step. destruct (gate fx c s e); cbn; [|destruct e; lia].
+  destruct e; cbn; try lia.
+  - pose proof (wset_len_le k (fresh_info_of k) (s_workers s)). lia.
+  - pose proof (wdel_len_le k (s_workers s)). lia.
+  - destruct (wfind b (s_workers s)) eqn:W; [|lia]. cbn.
+    pose proof (wdel_len_found b (s_workers s) _ W).
+    pose proof (wset_len_le a (rekeyed w) (wdel b (s_workers s))). lia.
+  - pose proof (wdel_len_le k (s_workers s)). lia.
+  - destruct counted; [|cbn; lia]. destruct (wfind k (s_workers s)) eqn:W; [|cbn; lia].
+    destruct (fx_err_multi fx || negb (s_errworker s)).
+    + destruct (c_errkill c <? w_errs w + 1)%N; cbn; erewrite wset_len_found by eauto; lia.
+    + cbn. erewrite wset_len_found by eauto. lia.
+  - rewrite on_worker_len. lia.
+  - rewrite on_worker_len. lia.
+  - rewrite on_worker_len. lia.
+Qed.
+
+Lemma insert_keys_cons : forall e r,
+  length (insert_keys (e :: r)) = match e with ESetIns _ => 1 | _ => 0 end + length (insert_keys r).
+Proof. intros. unfold insert_keys. cbn. rewrite app_length. destruct e; reflexivity. Qed.
+
+Lemma tracked_le_completions_from : forall fx c evs s,
+  length (s_workers (run_from fx c s evs)) <= length (s_workers s) + length (insert_keys evs).
+Proof.
+  induction evs as [|e r IH]; intros s; [cbn; lia|].
+  change (run_from fx c s (e :: r)) with (run_from fx c (fst (step fx c s e)) r).
+  rewrite insert_keys_cons. pose proof (IH (fst (step fx c s e))). pose proof (step_len_le fx c s e). lia.
+Qed.
+
+Lemma tracked_le_completions_lemma : forall fx c evs,
+  (tracked (run fx c evs) <= N.of_nat (length (insert_keys evs)))%N.
+Proof.
+  intros. unfold tracked, run. pose proof (tracked_le_completions_from fx c evs init_st). cbn in H. lia.
+Qed.
+
+Lemma rekey_never_grows_lemma : forall fx c s b a,
+  rekey_ok (tracked s) (tracked (fst (step fx c s (ERekey b a)))) = true.
+Proof.
+  intros. unfold rekey_ok, tracked. apply N.leb_le.
+  pose proof (step_len_le fx c s (ERekey b a)) as H. cbv beta iota in H. lia.
+Qed.
+
+Lemma rekey_missing_noop_lemma : forall fx c s b a,
+  wfind b (s_workers s) = None -> step fx c s (ERekey b a) = (s, true).
+Proof. intros fx c s b a H. unfold step. cbn. rewrite H. reflexivity. Qed.
+
+(* forks of the entries under the map operations *)
+Lemma forks_wdel_incl : forall k l x, In x (forks (wdel k l)) -> In x (forks l).
+Proof.
+  induction l as [|[k' j] r IH]; cbn; intros x H; [exact H|].
+  destruct (Nat.eqb k k'); cbn in *; [right; auto|]. destruct H; [left; exact H|right; auto].
+Qed.
+
+Lemma forks_wdel_nodup : forall k l, NoDup (forks l) -> NoDup (forks (wdel k l)).
+Proof.
+  induction l as [|[k' j] r IH]; cbn; intros H; [exact H|].
+  inversion H as [|? ? Hn Hr]; subst. destruct (Nat.eqb k k'); cbn; [auto|].
+  constructor; [|auto]. intro Hi. apply Hn. eapply forks_wdel_incl; eauto.
+Qed.
+
+Lemma forks_wdel_found : forall k l i,
+  NoDup (forks l) -> wfind k l = Some i -> ~ In (w_fork i) (forks (wdel k l)).
+Proof.
+  induction l as [|[k' j] r IH]; cbn; intros i H F; [discriminate|].
+  inversion H as [|? ? Hn Hr]; subst. destruct (Nat.eqb k k').
+  - inversion F; subst. intro Hi. apply Hn. eapply forks_wdel_incl; eauto.
+  - cbn. intros [E|Hi].
+    + apply Hn. rewrite E. clear - F. induction r as [|[k2 j2] r IH]; cbn in *; [discriminate|].
+      destruct (Nat.eqb k k2); [inversion F; subst; left; reflexivity|right; auto].
+    + eapply IH; eauto.
+Qed.
+
+Lemma forks_wset_incl : forall k v l x, In x (forks (wset k v l)) -> x = w_fork v \/ In x (forks l).
+Proof.
+  induction l as [|[k' j] r IH]; cbn; intros x H.
+  - destruct H; [left; auto|contradiction].
+  - destruct (Nat.eqb k k'); cbn in *.
+    + destruct H; [left; auto|right; right; auto].
+    + destruct H; [right; left; auto|]. destruct (IH _ H); [left; auto|right; right; auto].
+Qed.
+
+Lemma forks_wset_nodup : forall k v l,
+  NoDup (forks l) -> ~ In (w_fork v) (forks l) -> NoDup (forks (wset k v l)).
+Proof.
+  induction l as [|[k' j] r IH]; cbn; intros H Hv.
+  - constructor; [auto|constructor].
+  - inversion H as [|? ? Hn Hr]; subst. destruct (Nat.eqb k k'); cbn.
+    + constructor; [|exact Hr]. intro Hi. apply Hv. right. exact Hi.
+    + constructor.
+      * intro Hi. destruct (forks_wset_incl _ _ _ _ Hi) as [E|Hi']; [|contradiction].
+        apply Hv. left. exact E.
+      * apply IH; [exact Hr|]. intro Hi. apply Hv. right. exact Hi.
+Qed.
+
+Lemma forks_wset_same : forall k v l i,
+  wfind k l = Some i -> w_fork v = w_fork i -> forks (wset k v l) = forks l.
+Proof.
+  induction l as [|[k' j] r IH]; cbn; intros i F E; [discriminate|].
+  destruct (Nat.eqb k k'); cbn.
+  - inversion F; subst. rewrite E. reflexivity.
+  - f_equal. eapply IH; eauto.
+Qed.
+
+Lemma forks_on_worker : forall s k f,
+  (forall i, w_fork (f i) = w_fork i) -> forks (s_workers (on_worker s k f)) = forks (s_workers s).
+Proof.
+  intros s k f Hf. unfold on_worker. destruct (wfind k (s_workers s)) eqn:W; [|reflexivity].
+  cbn. eapply forks_wset_same; eauto.
+Qed.
+
+(* the entries' forks after one event: a duplicate-free sublist of the old ones,
+   plus the inserted key *)
+Lemma forks_step : forall fx c s e,
+  NoDup (forks (s_workers s)) ->
+  (forall k, e = ESetIns k -> ~ In k (forks (s_workers s))) ->
+  NoDup (forks (s_workers (fst (step fx c s e)))) /\
+  (forall x, In x (forks (s_workers (fst (step fx c s e)))) ->
+             In x (forks (s_workers s)) \/ e = ESetIns x).
+Proof.
+  intros fx c s e ND Hk. unfold step. destruct (gate fx c s e); cbn; [|split; [exact ND|auto]].
+  destruct e; cbn; try (split; [exact ND|auto]; fail).
+  - split.
+    + apply forks_wset_nodup; [exact ND|]. cbn. apply Hk. reflexivity.
+    + intros x Hx. destruct (forks_wset_incl _ _ _ _ Hx) as [E|Hi]; [right; cbn in E; subst; reflexivity|left; exact Hi].
+  - split; [apply forks_wdel_nodup; exact ND|]. intros x Hx. left. eapply forks_wdel_incl; eauto.
+  - destruct (wfind b (s_workers s)) eqn:W; [|split; [exact ND|auto]]. cbn. split.
+    + apply forks_wset_nodup; [apply forks_wdel_nodup; exact ND|]. cbn.
+      eapply forks_wdel_found; eauto.
+    + intros x Hx. left. destruct (forks_wset_incl _ _ _ _ Hx) as [E|Hi].
+      * cbn in E. subst. clear - W. induction (s_workers s) as [|[k2 j2] r IH]; cbn in *; [discriminate|].
+        destruct (Nat.eqb b k2); [inversion W; subst; left; reflexivity|right; auto].
+      * eapply forks_wdel_incl; eauto.
+  - split; [apply forks_wdel_nodup; exact ND|]. intros x Hx. left. eapply forks_wdel_incl; eauto.
+  - destruct counted; [|split; [exact ND|auto]].
+    destruct (wfind k (s_workers s)) eqn:W; [|split; [exact ND|auto]].
+    assert (E1 : forks (wset k (counted_err c w) (s_workers s)) = forks (s_workers s))
+      by (eapply forks_wset_same; eauto).
+    assert (E2 : forks (wset k (lost_err w) (s_workers s)) = forks (s_workers s))
+      by (eapply forks_wset_same; eauto).
+    destruct (fx_err_multi fx || negb (s_errworker s)).
+    + destruct (c_errkill c <? w_errs w + 1)%N; unfold log_kill, set_errworker, upd; cbn [s_workers];
+        rewrite E1; split; auto.
+    + unfold set_lost, upd; cbn [s_workers]. rewrite E2. split; auto.
+  - rewrite forks_on_worker by reflexivity. split; auto.
+  - rewrite forks_on_worker by reflexivity. split; auto.
+  - rewrite forks_on_worker by reflexivity. split; auto.
+Qed.
+
+Lemma insert_keys_cons_eq : forall e r,
+  insert_keys (e :: r) = match e with ESetIns k => [k] | _ => [] end ++ insert_keys r.
+Proof. reflexivity. Qed.
+
+Lemma fork_tracked_once_from : forall fx c evs s,
+  NoDup (forks (s_workers s)) -> NoDup (insert_keys evs) ->
+  (forall k, In k (insert_keys evs) -> ~ In k (forks (s_workers s))) ->
+  NoDup (forks (s_workers (run_from fx c s evs))).
+Proof.
+  induction evs as [|e r IH]; intros s ND NK D; [exact ND|].
+  change (run_from fx c s (e :: r)) with (run_from fx c (fst (step fx c s e)) r).
+  rewrite insert_keys_cons_eq in NK, D.
+  assert (Hk : forall k, e = ESetIns k -> ~ In k (forks (s_workers s))).
+  { intros k ->. apply D. cbn. left. reflexivity. }
+  destruct (forks_step fx c s e ND Hk) as [ND' SUB].
+  apply IH; [exact ND'| |].
+  - destruct e; cbn in NK; try exact NK. inversion NK; auto.
+  - intros k Hin Hf. destruct (SUB _ Hf) as [Hold | ->].
+    + apply (D k); [apply in_or_app; right; exact Hin|exact Hold].
+    + cbn in NK. inversion NK; subst. contradiction.
+Qed.
+
+Lemma fork_tracked_once_lemma : forall fx c evs,
+  NoDup (insert_keys evs) -> NoDup (forks_of (run fx c evs)).
+Proof.
+  intros fx c evs NK. unfold forks_of, run.
+  apply (fork_tracked_once_from fx c evs init_st); [constructor|exact NK|].
+  intros k _ H. exact H.
+Qed.
+
+(* the worker connects before its fork completes (late seam): the re-keying
+   finds nothing, ErrWorkerMissing is raised for an address nobody tracks, the
+   completion then inserts a boot entry that stays as it is *)
+Lemma connect_before_completion_lemma : forall c s b a,
+  wfind b (s_workers s) = None -> wfind a (s_workers s) = None ->
+  let s' := run_from no_fixes c s [ERekey b a; EErr a true; ESetIns b] in
+  tracked s' = (tracked s + 1)%N /\
+  wfind b (s_workers s') = Some (fresh_info_of b) /\
+  wfind a (s_workers s') = (if Nat.eqb a b then Some (fresh_info_of b) else None) /\
+  ready s' = ready s /\
+  s_inflight s' = rem b (s_inflight s).
+Proof.
+  intros c s b a Wb Wa s'. subst s'. unfold run_from. cbn [fold_left].
+  rewrite (rekey_missing_noop_lemma no_fixes c s b a Wb). cbn [fst].
+  assert (E1 : fst (step no_fixes c s (EErr a true)) = set_errworker s true).
+  { unfold step. cbn. rewrite Wa. reflexivity. }
+  rewrite E1. unfold step. cbn.
+  assert (L : forall l, wfind b l = None -> wfind b (wset b (fresh_info_of b) l) = Some (fresh_info_of b)).
+  { induction l as [|[k j] r IH]; cbn; intros H; [rewrite Nat.eqb_refl; reflexivity|].
+    destruct (Nat.eqb b k) eqn:E; [discriminate|]. cbn. rewrite E. auto. }
+  repeat split.
+  - unfold tracked. cbn. rewrite wset_len_none by exact Wb. lia.
+  - apply L. exact Wb.
+  - destruct (Nat.eqb a b) eqn:E.
+    + apply Nat.eqb_eq in E. subst. apply L. exact Wb.
+    + rewrite wfind_wset_other; [exact Wa|]. intro; subst. rewrite Nat.eqb_refl in E. discriminate.
+  - unfold ready. cbn. f_equal. clear - Wb.
+    induction (s_workers s) as [|[k j] r IH]; cbn in *; [reflexivity|].
+    destruct (Nat.eqb b k); [discriminate|]. cbn. destruct (is_ready j); cbn; rewrite IH; auto.
+Qed.
+
+Lemma late_seam_nonvacuous_lemma :
+  let c := {| c_min := 1; c_max := 1; c_errkill := 3; c_warm := 0 |} in
+  let late := [ENormalize; EForkReq; EForking 1; ERekey 1 11; EErr 11 true; EErrClear; ESetIns 1] in
+  let prompt := [ENormalize; EForkReq; EForking 1; ESetIns 1; ERekey 1 11] in
+  (* prompt seam: one tracked worker under its local address, ready *)
+  tracked (run no_fixes c prompt) = 1%N /\ ready (run no_fixes c prompt) = 1%N /\
+  forks_of (run no_fixes c prompt) = [1] /\
+  (* late seam: the boot entry, never connected; the pool cannot get ready; a
+     further fork is refused *)
+  tracked (run no_fixes c late) = 1%N /\ ready (run no_fixes c late) = 0%N /\
+  forks_of (run no_fixes c late) = [1] /\
+  wfind 11 (s_workers (run no_fixes c late)) = None /\
+  step no_fixes c (run no_fixes c late) ETryReady = (run no_fixes c late, false) /\
+  step no_fixes c (run no_fixes c late) EForkReq = (run no_fixes c late, false) /\
+  bound_ok c (tracked (run no_fixes c late)) = true /\
+  (* were the missing entry registered by the re-keying, the completion would
+     track the fork a second time *)
+  bound_partial_obs c 2 (run no_fixes c late) = false /\
+  rekey_ok 0 1 = false.
 Proof. vm_compute. repeat split. Qed.
 
 (* ------------------------------------------------------------ state groups *)
